@@ -124,3 +124,8 @@ def run(ctx):
     bad = [(cl, c) for cl, c in ctx.violations if cl.startswith("ref_")]
     if bad:
         raise MachineryError("reference disagrees with spec/TimeConv.tla: %s %r" % (bad[0][0], bad[0][1].get("case")))
+
+
+def redrive(ev):
+    c = ev["case"]
+    return time_event((c["kind"], c["us"], c["off"]))
